@@ -555,7 +555,12 @@ pub fn judge(ctx: &Ctx, c: &ThreadedCase) -> Outcome {
     let mut o = Outcome::pass();
     let r = run_case(ctx, c);
     if let Some(s) = r.stalled {
-        o.fail("threads:stall-all-parked", s);
+        // C06 / C07 are not liveness properties (C20 is), and KeyValueStore clients never park on a
+        // store condition variable: "no client operation completed for 500 ms" may just be a slow
+        // disk or a starved machine.  No verdict.
+        let _ = s;
+        o.inconclusive = true;
+        o.label("no-client-progress-for-500ms");
         return o;
     }
     if r.timed_out {
@@ -705,6 +710,8 @@ fn run_ingest(ctx: &Ctx, c: &IngestCase) -> Outcome {
         sst_cache_bytes: 1 << 26,
         mani_rollover_ratio: 2,
     };
+    // threads leaked by an earlier timed-out case of this worker stay parked for ever: baseline
+    let parked_before_case = verif::PARKED.load(Ordering::SeqCst);
     let tree = match LsmTree::open(cfg.options(&root.to_string_lossy())) {
         Ok(t) => Arc::new(t),
         Err(e) => {
@@ -825,7 +832,7 @@ fn run_ingest(ctx: &Ctx, c: &IngestCase) -> Outcome {
             stalls_seen.store(true, Ordering::SeqCst);
         }
         let snap = (verif::PROGRESS.load(Ordering::SeqCst), verif::NOTIFY_EPOCH.load(Ordering::SeqCst), ingested.load(Ordering::SeqCst));
-        let parked = verif::PARKED.load(Ordering::SeqCst);
+        let parked = verif::PARKED.load(Ordering::SeqCst).saturating_sub(parked_before_case);
         let live = nthreads - done.load(Ordering::SeqCst);
         if snap == last && parked >= live {
             same += 1;
@@ -833,8 +840,9 @@ fn run_ingest(ctx: &Ctx, c: &IngestCase) -> Outcome {
             same = 0;
         }
         last = snap;
-        if same >= 25 {
-            stalled = Some(format!("{} ingest threads are unfinished, every live store thread ({live}) is parked on a condition variable, and no progress or notify happened for 500 ms; L0 stalled: {}", c.ingest_threads as u64 - done.load(Ordering::SeqCst), tree.verif_should_stall()));
+        // 3 s without any notify: a thread that WAS notified has had ample time to be scheduled
+        if same >= 150 {
+            stalled = Some(format!("{} ingest threads are unfinished, every live store thread ({live}) is parked on a condition variable, and no progress or notify happened for 3 s; L0 stalled: {}", c.ingest_threads as u64 - done.load(Ordering::SeqCst), tree.verif_should_stall()));
             break;
         }
         if t0.elapsed() > Duration::from_secs(60) {
@@ -884,7 +892,7 @@ fn run_ingest(ctx: &Ctx, c: &IngestCase) -> Outcome {
         o.inconclusive = true;
         o.label("watchdog");
     } else if let Some(e) = failed.lock().unwrap().iter().find(|e| !e.contains("verif: stopped")) {
-        o.fail("threads:op-error", vcore::truncate(e, 400));
+        o.fail(if e.starts_with("harness:") { "harness:cannot-build-input" } else { "threads:op-error" }, vcore::truncate(e, 400));
     } else if let Some(e) = bg_errors.first() {
         o.fail("threads:background-error", vcore::truncate(e, 400));
     }
@@ -1186,11 +1194,13 @@ impl Property for Wakeups {
                     }
                     let _ = std::fs::remove_file(&path);
                     let l0 = tree.verif_levels()[0].len();
-                    if l0 >= c.mandatory_files.max(1) as usize {
+                    // one file MORE than the threshold: compaction is mandatory whether the store reads
+                    // "maximum number of files permitted before compaction becomes mandatory" as >= or >
+                    if l0 > c.mandatory_files.max(1) as usize {
                         // the ingest itself counts as one progress event; the compaction thread
                         // must add another
                         if !wait_until(|| verif::PROGRESS.load(Ordering::SeqCst) > before + 1, Duration::from_secs(12)) {
-                            if verif::PARKED.load(Ordering::SeqCst) > parked0 && tree.verif_levels()[0].len() >= c.mandatory_files.max(1) as usize {
+                            if verif::PARKED.load(Ordering::SeqCst) > parked0 && tree.verif_levels()[0].len() > c.mandatory_files.max(1) as usize {
                                 o.fail("wakeup:compaction-not-woken", format!("the compaction thread is still parked 12 s after an ingest brought level 0 to {} files (mandatory threshold {}), and no other store thread exists", l0, c.mandatory_files));
                             } else {
                                 o.inconclusive = true;
